@@ -46,7 +46,7 @@ int ogg_page_bos(const ogg_page *og){ return og->header[5]&2; }
 int ogg_page_eos(const ogg_page *og){ return og->header[5]&4; }
 int ogg_page_continued(const ogg_page *og){ return og->header[5]&1; }
 int ogg_page_serialno(const ogg_page *og){ return (int)(og->header[14]|(og->header[15]<<8)|(og->header[16]<<16)|((unsigned)og->header[17]<<24)); }
-ogg_int64_t ogg_page_granulepos(const ogg_page *og){ ogg_int64_t g=0; for(int i=13;i>=6;i--) g=(g<<8)|og->header[i]; return g; }
+ogg_int64_t ogg_page_granulepos(const ogg_page *og){ unsigned long g=0; for(int i=13;i>=6;i--) g=(g<<8)|og->header[i]; return (ogg_int64_t)g; }
 int ogg_stream_init(ogg_stream_state *os,int serialno){ memset(os,0,sizeof *os); os->serialno=serialno; os->body_data=malloc(1); return 0; }
 int ogg_stream_clear(ogg_stream_state *os){ if(os){ if(os->body_data)free(os->body_data); memset(os,0,sizeof *os);} return 0; }
 int ogg_stream_reset(ogg_stream_state *os){ return 0; }
